@@ -199,6 +199,8 @@ def run(ctx):
     r4.check(bool(un) and all(norm(s.value) == 'False' for s in un),
              ctx.construct(ra, extra='un-accept'),
              'selected executions are not un-accepted', ctx.loc(ra))
+    from mstatic.rules import c07
+    c07.child_collections(ctx, r4)
     sk = prog.func('mistral.engine.task_handler.skip_task')
     calls = [n for n in own_nodes(sk.node) if isinstance(n, ast.Call) and
              U.call_name(n) == 'complete']
